@@ -239,10 +239,16 @@ func writerMain(args []string) int {
 					dir, allowed, _ := prepareDir(hasOld, pad, name)
 					code, out := runChild([]string{"-dir", dir, "-name", name, "-v", "2", "-pad", fmt.Sprint(pad), "-crash", pt}, "")
 					sc.Outcome = fmt.Sprint("exit ", code)
-					if code != 128+9 {
-						report(sc, Mismatch{Props: []string{"TOOL"}, What: "child-did-not-die-at-point", Got: code, Note: out})
+					switch code {
+					case 128 + 9:
+						report(sc, inspectDir(dir, allowed, "after SIGKILL at "+pt)...)
+					case 0:
+						// this writer never reaches that point (another protocol): it ran to completion
+						col.count("crash_points_not_reached", 1)
+						report(sc, inspectDir(dir, allowed[len(allowed)-1:], "after a complete write (point "+pt+" not reached)")...)
+					default:
+						report(sc, Mismatch{Props: []string{"TOOL"}, What: "child-failed", Got: code, Note: out})
 					}
-					report(sc, inspectDir(dir, allowed, "after SIGKILL at "+pt)...)
 					os.RemoveAll(filepath.Dir(dir))
 					nsc++
 					col.done([]byte(jsonOf(sc)), true, 1)
